@@ -200,6 +200,40 @@ def run(chk):
                    node=fd, returned=sp.sstr(leaf)[:300])
             n += 2
     chk.need("C13", n, 10, "range obligations")
+    # R5: how parameters reach the formulas.  The ranges above are established for the parameter values the caller configured;
+    # `value or default` replaces a configured 0 by the default (0 is a legitimate -- for f, g and c_grapa_grow even the default --
+    # value: an assumed two-vote error rate of 0, no shrinkage weight, no padding), and the formulas are then evaluated at a
+    # parameter the caller did not choose.
+    import ast as _ast
+    from ..astutil import parent as _parent
+    n5 = 0
+    for role in ("estim", "bet", "tests"):
+        for name in reg[role]:
+            fd = idx.func(nnm.REL if hasattr(nnm, "REL") else "shangrla/core/NonnegMean.py", f"{nnm.CLS}.{name}")
+            bad = []
+            for b in _ast.walk(fd):
+                if not (isinstance(b, _ast.BoolOp) and isinstance(b.op, _ast.Or)):
+                    continue
+                reads = [v for v in b.values[:-1] if (isinstance(v, _ast.Call) and (norm(v.func) == "getattr" or norm(v.func).endswith(".get")))
+                         or (isinstance(v, _ast.Attribute) and norm(v.value) == "self")]
+                if not reads:
+                    continue
+                # in a condition the truth value is what is wanted; as a value it is a defaulting idiom
+                p_ = _parent(b)
+                in_cond = False
+                while p_ is not None and not isinstance(p_, _ast.stmt):
+                    if isinstance(p_, (_ast.Compare, _ast.UnaryOp)) or (isinstance(p_, _ast.IfExp) and p_.test is b):
+                        in_cond = True
+                    p_ = _parent(p_)
+                if isinstance(p_, (_ast.If, _ast.While, _ast.Assert)) and not isinstance(p_, _ast.Assign):
+                    in_cond = True
+                if not in_cond:
+                    bad.append(norm(b)[:100])
+            chk.ob("C13.R5", W(name), "parameters-not-defaulted-through-or", not bad,
+                   "parameters are read with an explicit default (getattr(self, name, default)); none is obtained as `value or "
+                   "default`, which would replace a configured 0", node=fd, strength="N", or_defaults=bad)
+            n5 += 1
+    chk.need("C13.R5", n5, 11, "registered estimators, bets and tests")
 
 
 def thorough(chk):
